@@ -87,13 +87,24 @@ def own_artifact(name):
     return name[:-4] + "." + ARTIFACT_EXT.get(name, "json")
 
 
+# a type error found in a file that is imported by let is reported under the imported file's name; which input it failed is
+# known from the project (one importer by let per such file)
+LET_IMPORTER_OF = {"Q.ucg": "R.ucg"}
+
+
 def failed_files(stderr, names):
     bad = set()
-    for n in names:
-        # build() wraps evaluation errors ("Error building file: <path>"); parse and type errors
-        # come straight from get_ops_for_path and name the file in their position
-        if re.search(r"Error building file: \S*/%s\b" % re.escape(n), stderr) or re.search(r" at file: \S*/%s line:" % re.escape(n), stderr):
-            bad.add(n)
+    for line in stderr.split("\n"):
+        m = re.search(r"Type error in imported file \S*/([A-Za-z0-9_]+\.ucg):", line)
+        if m and m.group(1) in LET_IMPORTER_OF:
+            if LET_IMPORTER_OF[m.group(1)] in names:
+                bad.add(LET_IMPORTER_OF[m.group(1)])
+            continue
+        for n in names:
+            # build() wraps evaluation errors ("Error building file: <path>"); parse and type errors
+            # come straight from get_ops_for_path and name the file in their position
+            if re.search(r"Error building file: \S*/%s\b" % re.escape(n), line) or re.search(r" at file: \S*/%s line:" % re.escape(n), line):
+                bad.add(n)
     return bad
 
 
